@@ -75,8 +75,9 @@ def load_known_findings():
 
 
 class _Borrowed:
-    def __init__(self, ctx, rule, origin, only, key_prefix):
+    def __init__(self, ctx, rule, origin, only, key_prefix, key_contains=None):
         self._c, self._rule, self._origin, self._only, self._kp = ctx, rule, origin, only, key_prefix
+        self._kc = key_contains
         self.tier = ctx.tier
         self.pid = ctx.pid
         self.extra = {}
@@ -91,6 +92,8 @@ class _Borrowed:
         if self._only is not None and r not in self._only:
             return bool(ok)
         if self._kp is not None and not key.startswith(self._kp):
+            return bool(ok)
+        if self._kc is not None and self._kc not in key:
             return bool(ok)
         return self._c.ob(self._rule, f"{self._origin}.{r}::{key}", ok, f"[{self._origin}.{r}] {what}", loc, detail, None)
 
@@ -178,11 +181,11 @@ class Ctx:
         if msg not in self.assumptions:
             self.assumptions.append(msg)
 
-    def borrowed(self, rule, origin, only=None, key_prefix=None):
+    def borrowed(self, rule, origin, only=None, key_prefix=None, key_contains=None):
         """A view of this context for re-using another property's rule function: every obligation it
         records is filed under `rule` of THIS property with its key prefixed by the origin
         (`C16.R1::...`); `only` restricts to origin rule ids; floors/counts/notes are namespaced."""
-        return _Borrowed(self, rule, origin, only, key_prefix)
+        return _Borrowed(self, rule, origin, only, key_prefix, key_contains)
 
     # ---- finishing --------------------------------------------------------
     def finish(self) -> int:
